@@ -602,7 +602,15 @@ func (l *log) Sync() (int64, error) {
 		defer l.readersMu.RUnlock()
 
 		rdr := l.readers[len(l.readers)-1]
-		return rdr.GetNextOffset()
+		nextOffset, err := rdr.GetNextOffset()
+		if err != nil {
+			return OffsetInvalid, err
+		}
+		// whoever wrote the newest segment might have gone away without syncing it
+		if err := rdr.segment.Sync(); err != nil {
+			return OffsetInvalid, err
+		}
+		return nextOffset, nil
 	}
 
 	l.writerMu.Lock()
